@@ -8,6 +8,7 @@
   and every starting state of the buffer (empty or pre-loaded at any read offset).
 -/
 import FBV.Lemmas.LoopLemmas
+import FBV.Lemmas.Refine
 import FBV.Props.C05
 namespace FBV.C02
 open FBV
